@@ -12,6 +12,7 @@ import (
 type c13Op struct {
 	Op   string `json:"op"`             // write | sum | reset | compute
 	Data string `json:"data,omitempty"` // hex input of write / compute
+	Nil  bool   `json:"nil,omitempty"`  // pass a nil slice (Data must be empty) instead of an empty one
 }
 type c13In struct {
 	Alg     string  `json:"alg"` // sha3_256 sha3_384 keccak_256 sha2_256 sha2_384 kmac128 oneshot_sha3_256 oneshot_sha2_256
@@ -19,6 +20,9 @@ type c13In struct {
 	Cust    string  `json:"cust,omitempty"`
 	OutSize int     `json:"outsize,omitempty"`
 	Ops     []c13Op `json:"ops"`
+	// Shadow: a SECOND object of the same type (same key/customizer slices for KMAC) and the one-shot
+	// helpers are driven with unrelated data between the operations: objects must be independent
+	Shadow bool `json:"shadow,omitempty"`
 }
 
 func init() {
@@ -29,7 +33,7 @@ func init() {
 		PropCheck: "prop_bad_ids",
 		Gen:       c13Gen,
 		Run:       c13Run,
-		Rule:      "operation sequences (Write/SumHash/Reset/ComputeHash) on one hasher object: every single-write length 0..4*rate for the three sponge hashers (quick: stride + block boundaries), two-way splits around block boundaries, random interleavings incl. write-after-sum and double sum, KMAC128 key/customizer/output length sweeps with the bytepad-aligned key lengths 162..164 and 330..332, constructor rejections, SHA2 with write-after-sum, one-shot helpers; non-trivial if a digest was produced or a constructor rejected; distinct by (algorithm, key, customizer, output size, op list)",
+		Rule:      "operation sequences (Write/SumHash/Reset/ComputeHash) on one hasher object: every single-write length 0..4*rate for the three sponge hashers (quick: stride + block boundaries), two-way splits around block boundaries, random interleavings incl. write-after-sum and double sum, KMAC128 key/customizer/output length sweeps with the bytepad-aligned key lengths 162..164 and 330..332, KMAC128 ComputeHash as well as SumHash at every output size, key length and output size of 8192 bytes (third byte of left_encode / right_encode), constructor rejections, SHA2 with write-after-sum, one-shot helpers (misaligned and nil input, dirty result buffer); for every hasher type: each of SumHash / Reset / ComputeHash / empty Write / nil Write as the FIRST operation on a new object, nil slices, random KMAC interleavings with empty writes, a second object of the same type (same key and customizer slices) and the one-shot helpers driven with unrelated data between the operations; the runner itself reports: Write not returning (len(p), nil), Size() / Algorithm() not matching the type and the digests, a message / key / customizer buffer modified by the library, a digest returned earlier that changes later, and it overwrites every caller buffer (message, key, customizer) as soon as the call it was passed to has returned; non-trivial if a digest was produced or a constructor rejected; distinct by (algorithm, key, customizer, output size, op list)",
 		Shard:     40,
 	})
 }
@@ -213,7 +217,31 @@ func c13Gen(tier string, r *rand.Rand) []Case {
 		}
 	}
 	for _, ol := range outLens {
-		add("kmac-outlen", c13In{Alg: "kmac128", Key: hx(rbytes(r, 16+r.IntN(32))), Cust: hx(rbytes(r, r.IntN(20))), OutSize: ol, Ops: kmacOps(true)})
+		add("kmac-outlen", c13In{Alg: "kmac128", Key: hx(rbytes(r, 16+r.IntN(32))), Cust: hx(rbytes(r, r.IntN(20))), OutSize: ol,
+			Ops: []c13Op{c13w(r, r.IntN(40)), {Op: "sum"}, {Op: "compute", Data: hx(rbytes(r, r.IntN(40)))}, {Op: "sum"}}})
+	}
+	// lengths at which left_encode / right_encode need a third byte (2^16 bits = 8192 bytes): key length
+	// (encode_string of the key) and output size (right_encode(L)), through SumHash and through ComputeHash
+	wideKeys, wideOuts := []int{8192}, []int{8192}
+	if th {
+		wideKeys, wideOuts = []int{8191, 8192, 8193, 8192 + 163}, []int{8191, 8192, 8193, 8192 + 168}
+	}
+	for i, kl := range wideKeys {
+		ops := []c13Op{c13w(r, 5), {Op: "sum"}}
+		if i%2 == 1 || th {
+			ops = append(ops, c13Op{Op: "compute", Data: hx(rbytes(r, 9))})
+		}
+		add("kmac-encode-width", c13In{Alg: "kmac128", Key: hx(rbytes(r, kl)), Cust: hx(rbytes(r, 2)), OutSize: 32, Ops: ops})
+	}
+	for i, ol := range wideOuts {
+		ops := []c13Op{c13w(r, 7), {Op: "sum"}}
+		if i%2 == 0 {
+			ops = []c13Op{{Op: "compute", Data: hx(rbytes(r, 7))}}
+		}
+		if th {
+			ops = []c13Op{c13w(r, 7), {Op: "sum"}, {Op: "compute", Data: hx(rbytes(r, 7))}}
+		}
+		add("kmac-encode-width", c13In{Alg: "kmac128", Key: hx(rbytes(r, 16)), OutSize: ol, Ops: ops})
 	}
 	// NIST samples #1 and #2 shapes (key 40..5f, data 00 01 02 03)
 	nk := make([]byte, 32)
@@ -232,6 +260,40 @@ func c13Gen(tier string, r *rand.Rand) []Case {
 		add("kmac-reject", c13In{Alg: "kmac128", Key: hx(rbytes(r, 16+r.IntN(20))), OutSize: os})
 	}
 	add("kmac-reject", c13In{Alg: "kmac128", Key: hx(rbytes(r, 3)), OutSize: -5})
+
+	// 4b. the FIRST operation on a never-used object is each of SumHash / Reset / ComputeHash / an empty or
+	// nil Write (lazily initialised buffers), and nil slices where an empty one is allowed
+	allAlgs := []string{"kmac128", "sha3_256", "sha3_384", "keccak_256", "sha2_256", "sha2_384"}
+	mkIn := func(alg string, ops []c13Op) c13In {
+		in := c13In{Alg: alg, Ops: ops}
+		if alg == "kmac128" {
+			in.Key, in.Cust, in.OutSize = hx(rbytes(r, 16+r.IntN(30))), hx(rbytes(r, r.IntN(5))), 1+r.IntN(60)
+		}
+		return in
+	}
+	nilw := c13Op{Op: "write", Nil: true}
+	for _, alg := range allAlgs {
+		add("first-op", mkIn(alg, []c13Op{{Op: "sum"}}))
+		add("first-op", mkIn(alg, []c13Op{{Op: "reset"}, {Op: "sum"}}))
+		add("first-op", mkIn(alg, []c13Op{{Op: "compute", Nil: true}, c13w(r, 3), {Op: "sum"}}))
+		add("first-op", mkIn(alg, []c13Op{nilw, c13w(r, 0), {Op: "sum"}}))
+		add("first-op", mkIn(alg, []c13Op{{Op: "sum"}, {Op: "sum"}, {Op: "reset"}, nilw, {Op: "sum"}}))
+		add("first-op", mkIn(alg, []c13Op{{Op: "compute", Data: ""}, {Op: "reset"}, c13w(r, 136), nilw, {Op: "sum"}, {Op: "compute", Nil: true}}))
+	}
+	// 4c. two objects of one type (and the one-shot helpers) used in turn: no state is shared between them
+	nsh := 1
+	if th {
+		nsh = 20
+	}
+	for i := 0; i < nsh; i++ {
+		for _, alg := range allAlgs {
+			ops := []c13Op{c13w(r, 1+r.IntN(150)), c13w(r, 136), {Op: "sum"}, {Op: "reset"}, c13w(r, r.IntN(300)), {Op: "sum"},
+				{Op: "compute", Data: hx(rbytes(r, r.IntN(200)))}, {Op: "reset"}, c13w(r, 104), c13w(r, 1+r.IntN(7)), {Op: "sum"}}
+			in := mkIn(alg, ops)
+			in.Shadow = true
+			add("two-objects", in)
+		}
+	}
 
 	// 5. SHA2: random lengths, chunkings, write-after-sum
 	nsha := 30
@@ -254,7 +316,7 @@ func c13Gen(tier string, r *rand.Rand) []Case {
 		add("sha2", c13In{Alg: alg, Ops: ops})
 	}
 	// 6. one-shot helpers
-	one := []int{0, 1, 135, 136, 137, 272, 300}
+	one := []int{0, 1, 135, 136, 137, 271, 272, 273, 300, 408, 544, 1000}
 	if th {
 		one = nil
 		for l := 0; l <= 2*136+2; l++ {
@@ -265,7 +327,23 @@ func c13Gen(tier string, r *rand.Rand) []Case {
 		add("oneshot", c13In{Alg: "oneshot_sha3_256", Ops: []c13Op{{Op: "compute", Data: hx(rbytes(r, l))}}})
 		add("oneshot", c13In{Alg: "oneshot_sha2_256", Ops: []c13Op{{Op: "compute", Data: hx(rbytes(r, l))}}})
 	}
+	add("oneshot", c13In{Alg: "oneshot_sha3_256", Ops: []c13Op{{Op: "compute", Nil: true}}})
+	add("oneshot", c13In{Alg: "oneshot_sha2_256", Ops: []c13Op{{Op: "compute", Nil: true}}})
 	return cs
+}
+
+// c13Arg is the slice handed to the library for an operation's data: a misaligned private copy, or nil
+func c13Arg(op c13Op, k int) []byte {
+	if op.Nil {
+		return nil
+	}
+	return misalign(unhx(op.Data), k)
+}
+
+func c13Scribble(b []byte) {
+	for i := range b {
+		b[i] ^= 0xA5
+	}
 }
 
 func c13Run(c Case) (Result, error) {
@@ -286,8 +364,11 @@ func c13Run(c Case) (Result, error) {
 		if len(in.Ops) != 1 {
 			return Result{}, fmt.Errorf("oneshot needs exactly one op")
 		}
-		x := unhx(in.Ops[0].Data)
+		x := c13Arg(in.Ops[0], len(in.Ops[0].Data)/2+1)
 		var out [32]byte
+		for i := range out {
+			out[i] = 0xEE // dirty result buffer: the helper must overwrite all of it
+		}
 		ctor := "COneShotSHA3_256"
 		p, msg := catch(func() {
 			if in.Alg == "oneshot_sha3_256" {
@@ -297,6 +378,9 @@ func c13Run(c Case) (Result, error) {
 				hash.ComputeSHA2_256(&out, x)
 			}
 		})
+		if hx(x) != in.Ops[0].Data {
+			return Result{}, implViolation("%s modified the caller's message buffer", in.Alg)
+		}
 		o := hx(out[:])
 		if p {
 			o = "" // a panic shows as a wrong (empty) output
@@ -305,35 +389,74 @@ func c13Run(c Case) (Result, error) {
 		return Result{Coq: fmt.Sprintf("%s %s %s", ctor, cqs(in.Ops[0].Data), cqs(o)), Key: key, Nontrivial: true, Obs: obs}, nil
 	}
 
-	var h hash.Hasher
+	var h, h2 hash.Hasher // h2: the shadow object (in.Shadow)
 	var algTerm string
+	wantSize, wantAlg := 0, hash.UnknownHashingAlgorithm
 	switch in.Alg {
 	case "sha3_256":
-		h, algTerm = hash.NewSHA3_256(), "ASha3_256"
+		h, h2, algTerm, wantSize, wantAlg = hash.NewSHA3_256(), hash.NewSHA3_256(), "ASha3_256", 32, hash.SHA3_256
 	case "sha3_384":
-		h, algTerm = hash.NewSHA3_384(), "ASha3_384"
+		h, h2, algTerm, wantSize, wantAlg = hash.NewSHA3_384(), hash.NewSHA3_384(), "ASha3_384", 48, hash.SHA3_384
 	case "keccak_256":
-		h, algTerm = hash.NewKeccak_256(), "AKeccak_256"
+		h, h2, algTerm, wantSize, wantAlg = hash.NewKeccak_256(), hash.NewKeccak_256(), "AKeccak_256", 32, hash.Keccak_256
 	case "sha2_256":
-		h, algTerm = hash.NewSHA2_256(), "ASha2_256"
+		h, h2, algTerm, wantSize, wantAlg = hash.NewSHA2_256(), hash.NewSHA2_256(), "ASha2_256", 32, hash.SHA2_256
 	case "sha2_384":
-		h, algTerm = hash.NewSHA2_384(), "ASha2_384"
+		h, h2, algTerm, wantSize, wantAlg = hash.NewSHA2_384(), hash.NewSHA2_384(), "ASha2_384", 48, hash.SHA2_384
 	case "kmac128":
 		var err error
 		var k hash.Hasher
-		p, msg := catch(func() { k, err = hash.NewKMAC_128(unhx(in.Key), unhx(in.Cust), in.OutSize) })
+		keyB, custB := unhx(in.Key), unhx(in.Cust)
+		p, msg := catch(func() { k, err = hash.NewKMAC_128(keyB, custB, in.OutSize) })
 		if p {
 			return Result{}, implViolation("NewKMAC_128 panicked: %s", msg)
+		}
+		if hx(keyB) != in.Key || hx(custB) != in.Cust {
+			return Result{}, implViolation("NewKMAC_128 modified the caller's key or customizer buffer")
 		}
 		ok := err == nil
 		algTerm = fmt.Sprintf("(AKmac %s %s (%d)%%Z %s)", cqs(in.Key), cqs(in.Cust), in.OutSize, cqbool(ok))
 		if !ok {
+			if k != nil {
+				return Result{}, implViolation("NewKMAC_128 returned an error (%v) together with a non-nil hasher", err)
+			}
 			return Result{Coq: fmt.Sprintf("CObj %s []", algTerm), Key: key, Nontrivial: true,
 				Obs: map[string]any{"ctor_ok": false, "err": err.Error()}}, nil
 		}
-		h = k
+		if in.Shadow {
+			h2, _ = hash.NewKMAC_128(keyB, custB, in.OutSize) // same argument slices as the first object
+		}
+		// the caller owns its key and customizer buffers: reusing them afterwards must not change the hasher
+		c13Scribble(keyB)
+		c13Scribble(custB)
+		h, wantSize, wantAlg = k, in.OutSize, hash.KMAC128
 	default:
 		return Result{}, fmt.Errorf("unknown alg %q", in.Alg)
+	}
+	if h.Size() != wantSize || h.Algorithm() != wantAlg {
+		return Result{}, implViolation("%s object reports Size() = %d, Algorithm() = %v; expected %d, %v", in.Alg, h.Size(), h.Algorithm(), wantSize, wantAlg)
+	}
+	// noise on the shadow object and the one-shot helpers, different at every step
+	shadow := func(i int) {
+		if !in.Shadow || h2 == nil {
+			return
+		}
+		noise := make([]byte, 1+(i*53)%311)
+		for j := range noise {
+			noise[j] = byte(i*7 + j*13 + 1)
+		}
+		_, _ = h2.Write(noise)
+		switch i % 4 {
+		case 0:
+			_ = h2.SumHash()
+		case 1:
+			_ = h2.ComputeHash(noise)
+		case 2:
+			h2.Reset()
+		}
+		var o32 [32]byte
+		hash.ComputeSHA3_256(&o32, noise)
+		hash.ComputeSHA2_256(&o32, noise)
 	}
 
 	var coqOps []string
@@ -346,12 +469,25 @@ func c13Run(c Case) (Result, error) {
 	}
 	var keptOut []keptDigest
 	argModified := false
+	writeRet := ""
 	for i, op := range in.Ops {
 		var term, out string
+		if op.Nil && op.Data != "" {
+			return Result{}, fmt.Errorf("nil op with data")
+		}
+		shadow(i)
 		p, msg := catch(func() {
 			switch op.Op {
 			case "write":
-				_, _ = h.Write(misalign(unhx(op.Data), i))
+				arg := c13Arg(op, i)
+				n, err := h.Write(arg)
+				if (n != len(arg) || err != nil) && writeRet == "" {
+					writeRet = fmt.Sprintf("Write of %d bytes returned (%d, %v)", len(arg), n, err)
+				}
+				if hx(arg) != op.Data {
+					argModified = true
+				}
+				c13Scribble(arg) // the caller reuses its buffer after Write has returned
 				term = "OWrite " + cqs(op.Data)
 			case "sum":
 				raw := h.SumHash()
@@ -362,13 +498,14 @@ func c13Run(c Case) (Result, error) {
 				h.Reset()
 				term = "OReset"
 			case "compute":
-				arg := misalign(unhx(op.Data), i+3)
+				arg := c13Arg(op, i+3)
 				raw := h.ComputeHash(arg)
 				out = hx(raw)
 				keptOut = append(keptOut, keptDigest{raw, out})
 				if hx(arg) != op.Data {
 					argModified = true
 				}
+				c13Scribble(arg)
 				term = fmt.Sprintf("OCompute %s %s", cqs(op.Data), cqs(out))
 			}
 		})
@@ -397,7 +534,13 @@ func c13Run(c Case) (Result, error) {
 		coqOps = append(coqOps, term)
 	}
 	if argModified {
-		return Result{}, implViolation("ComputeHash modified the caller's message buffer")
+		return Result{}, implViolation("Write / ComputeHash modified the caller's message buffer")
+	}
+	if writeRet != "" {
+		return Result{}, implViolation("%s; the io.Writer contract of Hasher is (len(p), nil)", writeRet)
+	}
+	if h.Size() != wantSize {
+		return Result{}, implViolation("Size() changed to %d after the operations (expected %d)", h.Size(), wantSize)
 	}
 	for k, kd := range keptOut {
 		if hx(kd.raw) != kd.hex {
